@@ -236,16 +236,23 @@ def extend_runs(ctx: Ctx, rng: random.Random, n: int):
         descs = [random_reaction(rng, False, pool) for _ in range(rng.randint(3, 8))]
         descs += [variants_of(rng, rng.choice(descs)) for _ in range(rng.randint(0, 3))]
         netrec.stop()
-        src = Network([mk(x) for x in descs])
-        src.reindex()
-        src.write(d / "in.naunet", "naunet")
+        # the input file is written by the harness's own encoder of the exchange format (not by naunet)
+        import encoders
+        recs = [{"r": list(x[0]), "p": list(x[1]), "a": 1.0e-10 * (k2 + 1), "b": 0.0, "c": 0.0, "tmin": x[2], "tmax": x[3], "idx": k2 + 1, "code": x[4]}
+                for k2, x in enumerate(descs)]
+        (d / "in.naunet").write_text("".join(encoders.native(r) + "\n" for r in recs))
+        input_keys = [(tuple(x[0]), tuple(x[1]), round(x[2] * 10), round(x[3] * 10), int(x[4]), k2 + 1) for k2, x in enumerate(descs)]
         opts = []
+        optrec = {"red": False, "reduce": [], "rm": False, "rmspecies": [], "rmdup": False, "phases": []}
         if rng.random() < 0.5:
             opts.append("--remove-duplicate")
+            optrec["rmdup"] = True
         if rng.random() < 0.5:
-            opts.append(f"--remove-species={rng.choice(pool)}")
+            optrec["rm"], optrec["rmspecies"] = True, rng.sample(pool, rng.choice([1, 1, 2]))
+            opts.append("--remove-species=" + ",".join(optrec["rmspecies"]))
         if rng.random() < 0.4:
-            opts.append("--reduce-by-species=" + ",".join(rng.sample(pool, rng.randint(4, len(pool)))))
+            optrec["red"], optrec["reduce"] = True, rng.sample(pool, rng.randint(4, len(pool)))
+            opts.append("--reduce-by-species=" + ",".join(optrec["reduce"]))
         for o in ("--append-depletion", "--append-thermal-desorption", "--append-photon-desorption", "--append-cosmic-ray-desorption"):
             if rng.random() < 0.4:
                 opts.append(o)
@@ -277,6 +284,8 @@ def extend_runs(ctx: Ctx, rng: random.Random, n: int):
             adds = evs[tail:end]
             phases = []
             base_post = evs[tail - 1]["post"] if tail > 0 else None
+            if base_post is None and tail > 0 and evs[tail - 1]["act"] == "Init":    # a network constructed empty
+                base_post = {"rlist": [], "skipped": [], "reactants": [], "products": [], "species": [], "sources": [], "sinks": [], "idxs": [], "allowed": []}
             for flag, ty, act in (("--append-depletion", 200, "AppendDepletion"), ("--append-thermal-desorption", 201, "AppendDesorption"),
                                   ("--append-photon-desorption", 203, "AppendDesorption"), ("--append-cosmic-ray-desorption", 202, "AppendDesorption")):
                 if flag in opts:
@@ -285,8 +294,62 @@ def extend_runs(ctx: Ctx, rng: random.Random, n: int):
                     phases.append({"act": act, "ty": ty, "ids": [e["i"] for e in grp], "post": post, "err": ""})
             if base_post is not None:
                 sl["ev"] = evs[:tail] + phases + evs[end:]
-        results.append({"opts": opts, "err": err, "rec": rec, "dir": d, "n_in": len(descs)})
+        optrec["phases"] = [ty for flag, ty in (("--append-depletion", 200), ("--append-thermal-desorption", 201), ("--append-photon-desorption", 203),
+                                                ("--append-cosmic-ray-desorption", 202)) if flag in opts]
+        results.append({"opts": opts, "err": err, "rec": rec, "dir": d, "n_in": len(descs), "optrec": optrec, "input_keys": input_keys})
     return results
+
+
+def read_native(path) -> list[dict]:
+    """the harness's own reader of the exchange format: idx, 3 reactants, 5 products, alpha, beta, gamma, Tmin, Tmax, type, source"""
+    out = []
+    for line in Path(path).read_text().splitlines():
+        if not line.strip() or line.lstrip().startswith("#"):
+            continue
+        f = [x.strip() for x in line.split(",")]
+        if len(f) < 15:
+            raise MachineryError(f"unreadable line in {path}: {line!r}")
+        out.append({"idx": int(f[0]), "r": [x for x in f[1:4] if x], "p": [x for x in f[4:9] if x], "tmin": float(f[12]), "tmax": float(f[13]), "ty": int(f[14])})
+    return out
+
+
+def command_traces(ext: list[dict], tid0: int) -> list[dict]:
+    """one trace per successful `naunet extend` run for Trace_ExtendCmd.tla: every Network call of the command on every object it
+    made, in order; the construction of the reduced network folded into one Rebuild event; a final Write event read from the file"""
+    out = []
+    for e in ext:
+        if e["err"] or not e["rec"].order:
+            continue
+        tr = netrec.to_traces(e["rec"], tid0=tid0 + len(out) + 1, merge=True, extra_keys=e["input_keys"])[0]
+        evs, k = [], 0
+        raw = tr["ev"]
+        while k < len(raw):
+            ev = raw[k]
+            if ev["act"] == "Init" and ev.get("obj", 1) > 1:
+                ids, post = [], ev["post"]
+                k += 1
+                while k < len(raw) and raw[k]["act"] == "Add" and tr["R"][raw[k]["i"] - 1]["ty"] not in (200, 201, 202, 203):
+                    ids.append(raw[k]["i"])
+                    post = raw[k]["post"]
+                    k += 1
+                evs.append({"act": "Rebuild", "ids": ids, "post": post, "err": ""})
+                continue
+            evs.append(ev)
+            k += 1
+        rank, cls = tr["name_rank"], tr["class_of"]
+        written = read_native(e["dir"] / "out.naunet")
+        evs.append({"act": "Write", "err": "", "out": [{"rn": [rank.get(x, 0) for x in w["r"]], "pn": [rank.get(x, 0) for x in w["p"]],
+                                                         "tmin": round(w["tmin"] * 10), "tmax": round(w["tmax"] * 10), "ty": w["ty"]} for w in written]})
+        o = e["optrec"]
+        tr["ev"] = evs
+        tr["input"] = tr.pop("extra_ids")
+        tr["opt"] = {"red": o["red"], "reduce": sorted(rank[x] for x in o["reduce"] if x in rank), "rm": o["rm"],
+                     "rmspecies": sorted(cls[x] for x in o["rmspecies"] if x in cls), "rmdup": o["rmdup"], "phases": o["phases"]}
+        tr["cmdline"] = " ".join(e["opts"])
+        tr["written"] = written
+        del tr["name_rank"], tr["class_of"]
+        out.append(tr)
+    return out
 
 
 # ------------------------------------------------------------------------------- main
@@ -410,7 +473,7 @@ def main(ctx: Ctx) -> int:
         harvest(rec, "repository tests")
         cov["traces_from_repository_tests"] = len(traces) - before
     if pid == "C14":
-        ext = extend_runs(ctx, rng, 8 if ctx.quick else 60)
+        ext = extend_runs(ctx, rng, 40 if ctx.quick else 400)
         bad = [e for e in ext if e["err"]]
         cov["extend_runs"] = len(ext)
         cov["extend_failed"] = len(bad)
@@ -422,6 +485,35 @@ def main(ctx: Ctx) -> int:
         for e in ext:
             if not e["err"]:
                 harvest(e["rec"], "naunet extend", " ".join(e["opts"]))
+        # the command as a whole against ExtendCmd.tla (phases, arguments dictated by the options, written file)
+        base_c = (SPEC / "MC_ExtendCmd.cfg").read_text()
+        cfgc = ctx.scratch / "mc_cmd.cfg"
+        cfgc.write_text(base_c if ctx.quick else base_c.replace("MaxIn = 3", "MaxIn = 4"))
+        rc = run_tlc("MC_ExtendCmd.tla", str(cfgc), ctx.sub("meta") / "mc_cmd", workers=16, timeout=3000)
+        require_clean_mc(rc, "MC_ExtendCmd")
+        if rc["error"]:
+            ctx.violation(f"C14|Design|Cmd|{','.join(rc['violated']) or 'error'}", "TLC counterexample in ExtendCmd (model of the command as is)", {"tlc": rc["out"][-6000:]})
+        cov["cmd_model_states"] = rc["distinct"]
+        for vname in ("dup_minimal", "rm_reactants_only"):
+            cv = ctx.scratch / f"cmd_{vname}.cfg"
+            cv.write_text(base_c.replace('CmdVariant = "asis"', f'CmdVariant = "{vname}"'))
+            rv = run_tlc("MC_ExtendCmd.tla", str(cv), ctx.sub("meta") / f"cmd_{vname}", workers=8)
+            if "PipelineResult" not in rv["violated"]:
+                raise MachineryError(f"seeded command variant {vname} not caught")
+        ctraces = command_traces(ext, 0)
+        vc = validate_traces(ctx, "Trace_ExtendCmd.tla", "Trace_ExtendCmd.cfg", ctraces, "cmd", chunk=500)
+        cov["cmd_traces"] = len(ctraces)
+        cov["cmd_traces_accepted"] = vc["accepted"]
+        cov["cmd_trace_states"] = vc["states"]
+        cbyt = {t["tid"]: t for t in ctraces}
+        for t, rj in sorted(vc["rejected"].items()):
+            tr = cbyt[t]
+            clause = (rj["clauses"] or ["NoEnabledAction"])[0]
+            at = rj["at"]
+            ev = tr["ev"][at - 1] if 0 < at <= len(tr["ev"]) else {}
+            ctx.violation(f"C14|Cmd:{clause}|act={ev.get('act', '?')}", f"`naunet extend {tr['cmdline']}`: at call {at} ({ev.get('act')}) the command model's clause "
+                          f"{clause} fails; input reactions {[tr['R'][i - 1]['text'] + ' [' + str(tr['R'][i - 1]['tmin']) + ',' + str(tr['R'][i - 1]['tmax']) + '] ty' + str(tr['R'][i - 1]['ty']) for i in tr['input']]}",
+                          {"trace": tr, "clauses": rj["clauses"], "at": at})
 
     traces = [t for t in traces if t["ev"]]
     v = validate_traces(ctx, "Trace_NetworkEdit.tla", "Trace_NetworkEdit.cfg", traces, "net", chunk=1500)
